@@ -480,3 +480,34 @@ def optional_selection(paths, source, selected):
         else:
             return False
     return seen == {"some", "none"}
+
+
+def expand_ifexp(e, limit=16):
+    """all readings of an expression with each conditional sub-expression replaced by one of its branches (the conditions are dropped): [expr]"""
+    import copy
+
+    class Pick(ast.NodeTransformer):
+        def __init__(self, choice):
+            self.choice, self.i = choice, 0
+
+        def visit_IfExp(self, n):
+            k = self.i
+            self.i += 1
+            take = self.choice[k] if k < len(self.choice) else True
+            return self.visit(n.body if take else n.orelse)
+
+    n_if = sum(1 for x in ast.walk(e) if isinstance(x, ast.IfExp))
+    if n_if == 0:
+        return [e]
+    out, seen = [], set()
+    import itertools
+
+    for choice in itertools.islice(itertools.product((True, False), repeat=n_if), limit * 4):
+        r = Pick(choice).visit(copy.deepcopy(e))
+        t = ast.unparse(r)
+        if t not in seen:
+            seen.add(t)
+            out.append(r)
+        if len(out) >= limit:
+            break
+    return out
